@@ -202,7 +202,32 @@ def decoder_class(dec, s):
     return ("other:" + type(v).__name__, v)
 
 
-def check_pair(pair, s):
+HOWS = ("split", "strip", "replace", "lstrip", "rstrip")
+
+
+def derive(how, s, g, dec):
+    """The Token for *s* as the public helpers of Token hand it out (None when that
+    helper cannot produce exactly *s*)."""
+    if how == "split":
+        t = Token("NAME " + s, grammar=g, decoder=dec).split()
+        t = t[1] if len(t) == 2 else None
+    elif how == "strip":
+        t = Token(" \t" + s + "\n", grammar=g, decoder=dec).strip()
+    elif how == "lstrip":
+        t = Token("\n " + s, grammar=g, decoder=dec).lstrip()
+    elif how == "rstrip":
+        t = Token(s + " \r\n", grammar=g, decoder=dec).rstrip()
+    elif how == "replace":
+        t = Token("@@" + s, grammar=g, decoder=dec).replace("@@", "", 1) \
+            if "@@" not in s else None
+    else:
+        t = Token(s, grammar=g, decoder=dec)
+    if t is None or str(t) != s or not isinstance(t, Token):
+        return None
+    return t
+
+
+def check_pair(pair, s, how="direct"):
     """None or (signature, detail)."""
     if len(s) >= 2 and s[0] in "\"'" and s[-1] == s[0] and s[0] in s[1:-1]:
         return "skip"
@@ -248,7 +273,9 @@ def check_pair(pair, s):
             return (f"C17/{pair}/class/unquoted-altered", f"{s!r} -> {val!r}")
     # (C) predicates
     try:
-        tok = Token(s, grammar=g, decoder=dec)
+        tok = derive(how, s, g, dec)
+        if tok is None:
+            return "skip"
         preds = dict(decimal=tok.is_decimal(), based=tok.is_non_decimal(),
                      datetime=tok.is_datetime(), quoted=tok.is_quoted_string())
         numeric = tok.is_numeric()
@@ -363,6 +390,17 @@ def exhaustive(acc, prefix, length):
 def curated(acc):
     for s in CURATED:
         run_string(acc, s)
+        # the same text as a Token that Token.split() / strip() / replace() returned
+        for how in HOWS:
+            for pair in PAIRS + DECIMAL_PAIRS:
+                r = check_pair(pair, s, how)
+                if r == "skip":
+                    continue
+                acc.case(key=pair + how + "\0" + s, nontrivial=not plain_word(s))
+                acc.event("derived-token:" + how)
+                if r is not None:
+                    acc.fail(r[0].replace("C17/", "C17/derived-token/", 1),
+                             dict(kind="pair", pair=pair, text=s, how=how), r[1])
         for t in (s.upper(), s.lower(), s.title(), "+" + s, "-" + s, s + "Z",
                   s + "#", "'" + s + "'", s + "_", s + "0"):
             run_string(acc, t)
@@ -423,7 +461,9 @@ def shards(tier, seed):
 
 def replay(case):
     if case["kind"] == "pair":
-        r = check_pair(case["pair"], case["text"])
+        r = check_pair(case["pair"], case["text"], case.get("how", "direct"))
+        if r not in (None, "skip") and case.get("how"):
+            r = (r[0].replace("C17/", "C17/derived-token/", 1), r[1])
     else:
         r = check_encoder(case["enc"], case["text"])
     if r in (None, "skip", "refused"):
